@@ -3,7 +3,7 @@
    writes what it observed next to the inputs; check_case recomputes everything with
    the model (Model.Socks5.run) and compares exactly. *)
 From Coq Require Import List Bool NArith.
-From MV Require Import Base.Bytes Model.Socks5.
+From MV Require Import Base.Bytes Model.Socks5 Model.Socks5Sched.
 Import ListNotations.
 
 (* implementation side of the server address: the host str as UTF-8 bytes, the 16
@@ -12,7 +12,7 @@ Definition idest := (bytes * option bytes * N)%type.
 
 Inductive case :=
 | Case (pa av eg fl : bool)            (* proxyauth, hook sets valid, eager, OpenConnection fails *)
-       (segs : list bytes)
+       (evs : list ev)                 (* delivered events in order: client segments and late/prompt completions *)
        (i_state : N)                   (* 0 greet 1 auth 2 connect (self.state), 3 relaying to child, 4 done, 5 exception *)
        (i_buf : bytes)                 (* self.buf, compared while the handshake runs *)
        (i_sent : bytes) (i_dest : option idest) (i_opened i_closed : bool)
@@ -53,11 +53,38 @@ Definition phase_matches (p : phase) (i_state : N) (i_buf : bytes) : bool :=
   | Crashed => N.eqb i_state 5
   end.
 
+(* the scheduled model (pause, queue, replay) must have settled in exactly the state the
+   plain model reaches on the same segments; structural comparison of the two states *)
+Definition host_eqb (a b : host) : bool :=
+  match a, b with
+  | HText x, HText y => bytes_eqb x y
+  | HV6 x, HV6 y => bytes_eqb x y
+  | _, _ => false
+  end.
+Definition obs_eqb (a b : obs) : bool :=
+  bytes_eqb (sent a) (sent b)
+  && option_eqb (pair_eqb host_eqb N.eqb) (dest a) (dest b)
+  && Bool.eqb (opened a) (opened b) && Bool.eqb (closed a) (closed b)
+  && option_eqb (pair_eqb bytes_eqb bytes_eqb) (creds a) (creds b)
+  && bytes_eqb (child a) (child b).
+Definition phase_eqb (a b : phase) : bool :=
+  match a, b with
+  | Greet x, Greet y | Auth x, Auth y | Connect x, Connect y => bytes_eqb x y
+  | Relay, Relay | Done, Done | Crashed, Crashed => true
+  | _, _ => false
+  end.
+Definition settled_matches (l : lstate) (s : st) : bool :=
+  match l with
+  | LRun s' => phase_eqb (fst s') (fst s) && obs_eqb (snd s') (snd s)
+  | _ => false
+  end.
+
 Definition check_case (c : case) : bool :=
   match c with
-  | Case pa av eg fl segs i_state i_buf i_sent i_dest i_opened i_closed i_creds i_child =>
+  | Case pa av eg fl evs i_state i_buf i_sent i_dest i_opened i_closed i_creds i_child =>
       let cf := mkCfg pa (fun _ _ => av) eg fl in
-      let '(p, o) := run cf segs in
+      let '(p, o) := run cf (data_of evs) in
+      settled_matches (run_sched cf evs) (p, o) &&
       phase_matches p i_state i_buf
       && bytes_eqb (sent o) i_sent
       && dest_matches (dest o) i_dest
